@@ -110,19 +110,44 @@ def find_state(current_state_machine, current_state, force_full_lookup=False):
         If the state can't be found in the parent state machine search for
         it more deeply using recursive descent, as the specified state might
         actually be in a Parallel branch or Map Iterator state machine.
-        Because JSONPath doesn't have a parent operator and we want to get
-        the parent States object too we get the full JSONPath string for
-        the query then use simple string splits to find the path of that.
+        Only the "States" objects of the state machine, of its Parallel
+        Branches and of its Map Iterators/ItemProcessors hold states, so the
+        descent follows just those: a field of the same name somewhere else
+        (in a Result or a Parameters object, say) is not a state, and a state
+        name may hold any characters, including ones that are special in
+        JSONPath. The path returned for each match is in JSONPath notation.
         """
-        path = get_full_jsonpath(current_state_machine, "$.." + current_state)
-        if path:
-            states_path = path[0].rpartition("['States']")[0]
-            if states_path:
-                branch = apply_jsonpath(current_state_machine, states_path)
-                current_state_machine = branch["States"]
-                state = current_state_machine.get(current_state)
-        else:
-            path = []
+        matches = []
+        def descend(states, states_path):
+            if not isinstance(states, dict):
+                return
+            for name, child in states.items():
+                child_path = states_path + "['" + name + "']"
+                if name == current_state:
+                    matches.append((child_path, states))
+                if not isinstance(child, dict):
+                    continue
+                branches = child.get("Branches")
+                if isinstance(branches, list):
+                    for i, branch in enumerate(branches):
+                        if isinstance(branch, dict):
+                            descend(
+                                branch.get("States"),
+                                child_path + "['Branches'][" + str(i) + "]['States']"
+                            )
+                for key in ("Iterator", "ItemProcessor"):
+                    item_processor = child.get(key)
+                    if isinstance(item_processor, dict):
+                        descend(
+                            item_processor.get("States"),
+                            child_path + "['" + key + "']['States']"
+                        )
+
+        descend(current_state_machine, "$")
+        path = [match[0] for match in matches]
+        if matches:
+            current_state_machine = matches[0][1]
+            state = current_state_machine.get(current_state)
     else:
         path = ["$['" + current_state + "']"]
 
